@@ -647,6 +647,35 @@ func (e *Exec) havocLoop(st *State, body ast.Node, extra []ast.Node, spec *LoopS
 				}
 			}
 		}
+		// what the body's own statements write (x.f = …, m[k] = …, *p = …; not through calls) belongs to the loop's
+		// frame whether it is listed or not: havocked as a whole, no loop-frame obligation. An explicit frame is there to
+		// narrow the effects of CALLS; a new local map or field written in the body must neither be assumed unchanged
+		// (the rest of the proof would be conditional on a failed obligation, seed C09-7) nor raise an alarm of its own.
+		dw := e.directWrites(body, extra)
+		var dks []string
+		for k := range dw {
+			dks = append(dks, k)
+		}
+		sort.Strings(dks)
+		for _, k := range dks {
+			ws := dw[k]
+			if len(ws) == 0 || keys[k] {
+				continue
+			}
+			keys[k] = true
+			for _, w := range ws {
+				// through a base expression the loop does not change: only that object (a local map keeps every other
+				// map of its type, in particular the caller's, out of the havoc); otherwise the whole key
+				if w.base != nil && e.stableExpr(w.base, vars, keys) {
+					e.spec++
+					ref := e.eval(st.Clone(), w.base)
+					e.spec--
+					given[k] = append(given[k], designator{key: k, ref: ref})
+				} else {
+					given[k] = append(given[k], designator{key: k, whole: true})
+				}
+			}
+		}
 	}
 	var ks []string
 	if keys["*"] {
